@@ -52,9 +52,9 @@ theorem coherent_keeps {c c' : Cat} {ss : Session} {g : Option (Name × Name)} (
   · have : g ≠ some (d, sc) := fun e => hg d sc e (by simp [Session.abs])
     simp [Session.coherent, hk.2 d sc hs this]
 
-theorem createDb_keeps (c : Cat) (d : Name) (g) : Cat.Keeps c (c.createDb d).2 g := by
+theorem createDb_keeps (c : Cat) (d : Name) (i : Bool) (g) : Cat.Keeps c (c.createDb d i).2 g := by
   unfold Cat.createDb; split
-  · exact Cat.Keeps.refl _ _
+  · split <;> exact Cat.Keeps.refl _ _
   · exact keeps_addDb _ _ _
 
 theorem applyT_keeps (c : Cat) (op : TOp) (d s n : Name) (g) : Cat.Keeps c (c.applyT op d s n).2 g := by
@@ -64,36 +64,50 @@ theorem applyT_keeps (c : Cat) (op : TOp) (d s n : Name) (g) : Cat.Keeps c (c.ap
   · cases op <;> simp only <;> repeat' split
     all_goals first | exact Cat.Keeps.refl _ _ | exact keeps_objs _ _ _
 
+theorem keeps_dropSchema (c : Cat) (d s : Name) :
+    Cat.Keeps c { c with schemas := c.schemas.filter (· != (d, s)),
+                         objs := c.objs.filter fun o => !(o.db == d && o.schema == s) } (some (d, s)) := by
+  refine ⟨fun x h => h, fun x y h hne => ?_⟩
+  simp at hne
+  simp [Cat.hasSchema, Cat.hasDb] at *
+  refine ⟨h.1, ?_⟩
+  rcases h.2 with h2 | h2
+  · exact Or.inl h2
+  · right; refine ⟨h2, ?_⟩
+    by_cases hx : x = d
+    · right; intro hy; exact hne hx.symm hy.symm
+    · left; exact hx
+
 theorem applyS_keeps (c : Cat) (op : SOp) (d s : Name) :
-    Cat.Keeps c (c.applyS op d s).2 (if op = .drop ∧ (c.applyS op d s).1 = .ok then some (d, s) else none) := by
+    Cat.Keeps c (c.applyS op d s).2 (if op.isDrop = true ∧ (c.applyS op d s).1 = .ok then some (d, s) else none) := by
   unfold Cat.applyS
   split
   · exact Cat.Keeps.refl _ _
-  · cases op <;> simp only
-    · split
-      · exact Cat.Keeps.refl _ _
+  · cases op with
+    | create i =>
+      simp only [SOp.isDrop, Bool.false_eq_true, false_and, if_false]
+      split
+      · split <;> exact Cat.Keeps.refl _ _
       · exact keeps_addSchema _ _ _
-    · split
+    | drop i =>
+      simp only [SOp.isDrop, true_and]
+      split
       · exact Cat.Keeps.refl _ _
-      · refine ⟨fun x h => h, fun x y h hne => ?_⟩
-        simp at hne
-        simp [Cat.hasSchema, Cat.hasDb] at *
-        refine ⟨h.1, ?_⟩
-        rcases h.2 with h2 | h2
-        · exact Or.inl h2
-        · right; refine ⟨h2, ?_⟩
-          by_cases hx : x = d
-          · right; intro hy; exact hne hx.symm hy.symm
-          · left; exact hx
-    · split <;> exact Cat.Keeps.refl _ _
+      · split
+        · split <;> exact Cat.Keeps.refl _ _
+        · simp only [if_true]; exact keeps_dropSchema c d s
+    | use =>
+      simp only [SOp.isDrop, Bool.false_eq_true, false_and, if_false]
+      split <;> exact Cat.Keeps.refl _ _
 
 theorem applyS_not_ok_same (c : Cat) (op : SOp) (d s : Name) (h : (c.applyS op d s).1 ≠ .ok) :
     (c.applyS op d s).2 = c := by
   unfold Cat.applyS at *
   split
   · rfl
-  · cases op <;> simp only at * <;> split <;> simp_all
-
+  · rename_i hdb
+    simp only [hdb] at h
+    cases op <;> simp only at h ⊢ <;> (repeat' split) <;> simp_all
 
 /-! ### the guards and DuckDB's search path agree with resolution from the context -/
 
@@ -121,7 +135,7 @@ theorem guard_refines {c : Cat} {ss : Session} (hc : ss.coherent c = true) (st :
     (hreg : localRegion c ss st = none) (hg : ss.guard st.needs = some e) :
     sexec c ss.abs st = (.err e, c, ss.abs, none) := by
   cases st with
-  | createDb d => simp [Stmt.needs, Session.guard] at hg
+  | createDb d i => simp [Stmt.needs, Session.guard] at hg
   | dropDb d => simp [localRegion] at hreg
   | useDb d => simp [Stmt.needs, Session.guard] at hg
   | useBare x => simp [localRegion] at hreg
@@ -179,11 +193,11 @@ theorem refines_join {c : Cat} {ss : Session} (hc : ss.coherent c = true) (r1 r2
   exact ⟨trivial, trivial, trivial, hc, Cat.Keeps.refl _ _⟩
 
 theorem refines_simple {c : Cat} {ss : Session} (hc : ss.coherent c = true) (st : Stmt)
-    (hst : (∃ d, st = .createDb d) ∨ (∃ d, st = .useDb d) ∨ st = .selectCtx)
+    (hst : (∃ d i, st = .createDb d i) ∨ (∃ d, st = .useDb d) ∨ st = .selectCtx)
     (hreg : localRegion c ss st = none) : LocalRefines c ss st := by
-  rcases hst with ⟨d, rfl⟩ | ⟨d, rfl⟩ | rfl
+  rcases hst with ⟨d, i, rfl⟩ | ⟨d, rfl⟩ | rfl
   · simp only [LocalRefines, exec, sexec, clear_none]
-    exact ⟨trivial, trivial, trivial, coherent_keeps (createDb_keeps c d none) hc (by simp), createDb_keeps _ _ _⟩
+    exact ⟨trivial, trivial, trivial, coherent_keeps (createDb_keeps c d i none) hc (by simp), createDb_keeps _ _ _ _⟩
   · rcases coherent_cases hc with rfl | ⟨d0, rfl, h0⟩ | ⟨d0, sc, rfl, _⟩
     · by_cases h : c.hasDb d = true
       · simp [LocalRefines, exec, sexec, h, Session.abs, Ctx.clear, Session.coherent, Cat.Keeps.refl]
@@ -211,17 +225,17 @@ theorem applyS_use_ok (c : Cat) (d s : Name) (h : (c.applyS .use d s).1 = .ok) :
     · assumption
     · simp at h
 
-theorem refines_sch_create {c : Cat} {ss : Session} (hc : ss.coherent c = true) (r : SRef)
-    (hg : ss.guard (Stmt.sch .create r).needs = none) : LocalRefines c ss (.sch .create r) := by
-  have hk := fun d s => applyS_keeps c .create d s
-  simp only [reduceCtorEq, false_and, if_false] at hk
+theorem refines_sch_create {c : Cat} {ss : Session} (hc : ss.coherent c = true) (i : Bool) (r : SRef)
+    (hg : ss.guard (Stmt.sch (.create i) r).needs = none) : LocalRefines c ss (.sch (.create i) r) := by
+  have hk := fun d s => applyS_keeps c (.create i) d s
+  simp only [SOp.isDrop, Bool.false_eq_true, false_and, if_false] at hk
   rcases coherent_cases hc with rfl | ⟨d0, rfl, h0⟩ | ⟨d0, sc, rfl, hs⟩ <;> cases r <;>
     simp [Stmt.needs, Session.guard, SRef.needDb] at hg <;>
     simp only [LocalRefines, exec, sexec, Session.abs, Ctx.resolveS, if_true, Bool.false_eq_true, if_false] <;>
     (rename_i s
      first
-     | (rename_i d; have hk' := hk d s; revert hk'; generalize c.applyS .create d s = a; intro hk')
-     | (have hk' := hk d0 s; revert hk'; generalize c.applyS .create d0 s = a; intro hk')) <;>
+     | (rename_i d; have hk' := hk d s; revert hk'; generalize c.applyS (.create i) d s = a; intro hk')
+     | (have hk' := hk d0 s; revert hk'; generalize c.applyS (.create i) d0 s = a; intro hk')) <;>
     (by_cases hok : a.1 = .ok <;> simp [hok, clear_none, hk'] <;>
       exact coherent_keeps hk' hc (by simp))
 
@@ -241,23 +255,23 @@ theorem refines_sch_use {c : Cat} {ss : Session} (hc : ss.coherent c = true) (r 
       first | exact ho' hok | exact hc | assumption)
 
 
-theorem applyS_drop_facts (c : Cat) (d s : Name) :
-    Cat.Keeps c (c.applyS .drop d s).2 (if (c.applyS .drop d s).1 = .ok then some (d, s) else none) ∧
-    ((c.applyS .drop d s).1 ≠ .ok → (c.applyS .drop d s).2 = c) := by
-  have := applyS_keeps c .drop d s
-  simp only [true_and] at this
-  exact ⟨this, applyS_not_ok_same c .drop d s⟩
+theorem applyS_drop_facts (c : Cat) (i : Bool) (d s : Name) :
+    Cat.Keeps c (c.applyS (.drop i) d s).2 (if (c.applyS (.drop i) d s).1 = .ok then some (d, s) else none) ∧
+    ((c.applyS (.drop i) d s).1 ≠ .ok → (c.applyS (.drop i) d s).2 = c) := by
+  have := applyS_keeps c (.drop i) d s
+  simp only [SOp.isDrop, true_and] at this
+  exact ⟨this, applyS_not_ok_same c (.drop i) d s⟩
 
-theorem refines_sch_drop {c : Cat} {ss : Session} (hc : ss.coherent c = true) (r : SRef)
-    (hg : ss.guard (Stmt.sch .drop r).needs = none) : LocalRefines c ss (.sch .drop r) := by
-  have hf := fun d s => applyS_drop_facts c d s
+theorem refines_sch_drop {c : Cat} {ss : Session} (hc : ss.coherent c = true) (i : Bool) (r : SRef)
+    (hg : ss.guard (Stmt.sch (.drop i) r).needs = none) : LocalRefines c ss (.sch (.drop i) r) := by
+  have hf := fun d s => applyS_drop_facts c i d s
   rcases coherent_cases hc with rfl | ⟨d0, rfl, h0⟩ | ⟨d0, sc, rfl, hs⟩ <;> cases r <;>
     simp [Stmt.needs, Session.guard, SRef.needDb] at hg <;>
     simp only [LocalRefines, exec, sexec, Session.abs, Ctx.resolveS, if_true, Bool.false_eq_true, if_false] <;>
     (rename_i s
      first
-     | (rename_i d; have hf' := hf d s; revert hf'; generalize c.applyS .drop d s = a; intro hf')
-     | (have hf' := hf d0 s; revert hf'; generalize c.applyS .drop d0 s = a; intro hf')) <;>
+     | (rename_i d; have hf' := hf d s; revert hf'; generalize c.applyS (.drop i) d s = a; intro hf')
+     | (have hf' := hf d0 s; revert hf'; generalize c.applyS (.drop i) d0 s = a; intro hf')) <;>
     obtain ⟨hk, hsame⟩ := hf' <;>
     by_cases hok : a.1 = .ok <;> simp [hok] at hk hsame <;> simp [hok, Ctx.clear, hsame, Cat.Keeps.refl, hc]
   all_goals (have hdb := hk.1; have hsch := hk.2)
@@ -274,7 +288,7 @@ theorem refines_sch_drop {c : Cat} {ss : Session} (hc : ss.coherent c = true) (r
 theorem exec_refines {c : Cat} {ss : Session} (hc : ss.coherent c = true) (st : Stmt)
     (hreg : localRegion c ss st = none) (hg : ss.guard st.needs = none) : LocalRefines c ss st := by
   cases st with
-  | createDb d => exact refines_simple hc _ (Or.inl ⟨d, rfl⟩) hreg
+  | createDb d i => exact refines_simple hc _ (Or.inl ⟨d, i, rfl⟩) hreg
   | dropDb d => simp [localRegion] at hreg
   | useDb d => exact refines_simple hc _ (Or.inr (Or.inl ⟨d, rfl⟩)) hreg
   | useBare x => simp [localRegion] at hreg
@@ -283,12 +297,12 @@ theorem exec_refines {c : Cat} {ss : Session} (hc : ss.coherent c = true) (st : 
   | join r1 r2 => exact refines_join hc r1 r2 hreg hg
   | sch op r =>
     cases op
-    · exact refines_sch_create hc r hg
-    · exact refines_sch_drop hc r hg
+    · exact refines_sch_create hc _ r hg
+    · exact refines_sch_drop hc _ r hg
     · exact refines_sch_use hc r hreg
 
 theorem sexec_dropped {c : Cat} {x : Ctx} {st : Stmt} {d s : Name} (h : (sexec c x st).2.2.2 = some (d, s)) :
-    ∃ r, st = .sch .drop r ∧ x.resolveS r = .ok (d, s) := by
+    ∃ i r, st = .sch (.drop i) r ∧ x.resolveS r = .ok (d, s) := by
   cases st with
   | sch op r =>
     simp only [sexec] at h
@@ -299,12 +313,12 @@ theorem sexec_dropped {c : Cat} {x : Ctx} {st : Stmt} {d s : Name} (h : (sexec c
       simp only [hr] at h
       split at h
       · cases op <;> simp at h
-        exact ⟨r, rfl, by rw [← h.1, ← h.2]; exact hr⟩
+        exact ⟨_, r, rfl, by rw [← h.1, ← h.2]; exact hr⟩
       · simp at h
   | tab op r => simp only [sexec] at h; split at h <;> simp at h
   | join r1 r2 => simp only [sexec] at h; repeat' split at h
                   all_goals simp at h
-  | createDb d => simp [sexec] at h
+  | createDb d i => simp [sexec] at h
   | dropDb d => simp only [sexec] at h; split at h <;> simp at h
   | useDb d => simp only [sexec] at h; split at h <;> simp at h
   | useBare d => simp only [sexec] at h; split at h <;> simp at h
@@ -320,7 +334,7 @@ theorem region_none {w : World} {i : Nat} {st : Stmt} {ss : Session} (hi : w.ses
   | some k => simp [hl] at h
   | none =>
     refine ⟨rfl, fun d s hd j sj hji hj => ?_⟩
-    obtain ⟨r, rfl, hr⟩ := sexec_dropped hd
+    obtain ⟨i', r, rfl, hr⟩ := sexec_dropped hd
     simp only [hl, hr] at h
     have ho : othersHold w i d s = false := by
       cases hh : othersHold w i d s
@@ -434,57 +448,69 @@ theorem step_coherent (w : World) (i : Nat) (st : Stmt) (hw : w.coherent = true)
 theorem hasDb_append (c : Cat) (d x : Name) (h : c.hasDb x = true) : ({ c with dbs := c.dbs ++ [d] } : Cat).hasDb x = true := by
   simp [Cat.hasDb] at *; exact Or.inl h
 
-theorem connect_refines (w : World) (d s : Option Name) (h : s.isSome → d.isSome) :
-    (Impl.connect w d s).abs = Spec.connect w.abs d s := by
-  cases d with
-  | none =>
-    cases s with
-    | none => simp [Impl.connect, Spec.connect, World.abs, Session.abs]
-    | some s => simp at h
-  | some d => cases s <;> simp [Impl.connect, Spec.connect, World.abs, Session.abs]
+theorem keeps_ensureDb (c : Cat) (d : Name) : Cat.Keeps c (c.ensureDb d) none := by
+  unfold Cat.ensureDb; split
+  · exact Cat.Keeps.refl _ _
+  · exact keeps_addDb _ _ _
 
-theorem connect_coherent (w : World) (d s : Option Name) (h : s.isSome → d.isSome) (hw : w.coherent = true) :
-    (Impl.connect w d s).coherent = true := by
-  simp only [World.coherent, List.all_eq_true] at hw
+theorem keeps_ensureSchema (c : Cat) (d s : Name) : Cat.Keeps c (c.ensureSchema d s) none := by
+  unfold Cat.ensureSchema; split
+  · exact Cat.Keeps.refl _ _
+  · exact keeps_addSchema _ _ _
+
+theorem Cat.Keeps.trans {a b c : Cat} (h1 : Cat.Keeps a b none) (h2 : Cat.Keeps b c none) : Cat.Keeps a c none :=
+  ⟨fun d h => h2.1 d (h1.1 d h), fun d s h hn => h2.2 d s (h1.2 d s h hn) hn⟩
+
+theorem keeps_connDb (c : Cat) (d : Name) (cd : Bool) : Cat.Keeps c (c.connDb d cd) none := by
+  unfold Cat.connDb; split
+  · exact keeps_ensureDb c d
+  · exact Cat.Keeps.refl _ _
+
+theorem keeps_connSchema (c : Cat) (d s : Name) (cs : Bool) : Cat.Keeps c (c.connSchema d s cs) none := by
+  unfold Cat.connSchema; split
+  · exact keeps_ensureSchema c d s
+  · exact Cat.Keeps.refl _ _
+
+theorem newSession_keeps (c : Cat) (d s : Option Name) (cd cs : Bool) :
+    Cat.Keeps c (Impl.newSession c d s cd cs).1 none := by
   cases d with
-  | none =>
-    cases s with
-    | some s => simp at h
-    | none =>
-      simp only [Impl.connect, World.coherent, List.all_eq_true, List.mem_append, List.mem_singleton]
-      rintro x (hx | rfl)
-      · exact hw x hx
-      · rfl
+  | none => exact Cat.Keeps.refl _ _
   | some d =>
-    have k1 : Cat.Keeps w.cat (w.cat.ensureDb d) none := by
-      unfold Cat.ensureDb; split
-      · exact Cat.Keeps.refl _ _
-      · exact keeps_addDb _ _ _
-    have hd : (w.cat.ensureDb d).hasDb d = true := by
-      unfold Cat.ensureDb; split
-      · assumption
-      · simp [Cat.hasDb]
+    cases s with
+    | none => exact keeps_connDb c d cd
+    | some s => exact (keeps_connDb c d cd).trans (keeps_connSchema _ d s cs)
+
+/-- connect gives the new connection the named context as far as it exists, whatever the create flags -/
+theorem connect_refines (w : World) (d s : Option Name) (cd cs : Bool) :
+    (Impl.connect w d s cd cs).abs = Spec.connect w.abs d s cd cs := by
+  cases d with
+  | none => simp [Impl.connect, Impl.newSession, Spec.connect, World.abs, Session.abs]
+  | some d =>
     cases s with
     | none =>
-      simp only [Impl.connect, World.coherent, List.all_eq_true, List.mem_append, List.mem_singleton]
-      rintro x (hx | rfl)
-      · exact coherent_keeps k1 (hw x hx) (by simp)
-      · simp [Session.coherent, hd]
+      simp only [Impl.connect, Impl.newSession, Spec.connect, World.abs]
+      by_cases h : (w.cat.connDb d cd).hasDb d = true
+      · simp [h, Session.abs]
+      · simp [h, Session.abs]
     | some s =>
-      simp only [Impl.connect, World.coherent, List.all_eq_true, List.mem_append, List.mem_singleton]
-      generalize w.cat.ensureDb d = c1 at *
-      have k2 : Cat.Keeps c1 (c1.ensureSchema d s) none := by
-        unfold Cat.ensureSchema; split
-        · exact Cat.Keeps.refl _ _
-        · exact keeps_addSchema _ _ _
-      have hs : (c1.ensureSchema d s).hasSchema d s = true := by
-        unfold Cat.ensureSchema; split
-        · assumption
-        · simp [Cat.hasSchema, Cat.hasDb] at hd ⊢; exact hd
-      rintro x (hx | rfl)
-      · exact coherent_keeps k2 (coherent_keeps k1 (hw x hx) (by simp)) (by simp)
-      · simp [Session.coherent, hs]
+      simp only [Impl.connect, Impl.newSession, Spec.connect, World.abs]
+      by_cases h1 : ((w.cat.connDb d cd).connSchema d s cs).hasSchema d s = true
+      · have := hasSchema_hasDb h1
+        simp [h1, this, Session.abs]
+      · by_cases h2 : ((w.cat.connDb d cd).connSchema d s cs).hasDb d = true
+        · simp [h1, h2, Session.abs]
+        · simp [h1, h2, Session.abs]
 
+theorem connect_coherent (w : World) (d s : Option Name) (cd cs : Bool) (henv : connectRegion w d s cd cs = none)
+    (hw : w.coherent = true) : (Impl.connect w d s cd cs).coherent = true := by
+  simp only [World.coherent, List.all_eq_true] at hw
+  simp only [Impl.connect, World.coherent, List.all_eq_true, List.mem_append, List.mem_singleton]
+  rintro x (hx | rfl)
+  · exact coherent_keeps (newSession_keeps w.cat d s cd cs) (hw x hx) (by simp)
+  · simp only [connectRegion] at henv
+    by_cases h : (Impl.newSession w.cat d s cd cs).2.coherent (Impl.newSession w.cat d s cd cs).1 = true
+    · exact h
+    · simp [h] at henv
 
 theorem step_refines_world (w : World) (i : Nat) (st : Stmt) (hw : w.coherent = true) (hreg : region w i st = none) :
     (Impl.step w i st).1 = (Spec.step w.abs i st).1 ∧ (Impl.step w i st).2.abs = (Spec.step w.abs i st).2 := by
@@ -503,14 +529,10 @@ theorem run_refines (w : World) (ops : List Op) (hw : w.coherent = true) (hc : c
   | nil => exact ⟨rfl, rfl, hw⟩
   | cons o os ih =>
     cases o with
-    | connect d s =>
-      simp only [clean, Bool.and_eq_true, Bool.or_eq_true, Bool.not_eq_true'] at hc
-      have hds : s.isSome = true → d.isSome = true := by
-        intro h; rcases hc.1 with h' | h'
-        · rw [h] at h'; cases h'
-        · exact h'
-      have := ih (Impl.connect w d s) (connect_coherent w d s hds hw) hc.2
-      simp only [Impl.run, Spec.run, ← connect_refines w d s hds]
+    | connect d s cd cs =>
+      simp only [clean, Bool.and_eq_true, Option.isNone_iff_eq_none] at hc
+      have := ih (Impl.connect w d s cd cs) (connect_coherent w d s cd cs hc.1 hw) hc.2
+      simp only [Impl.run, Spec.run, ← connect_refines w d s cd cs]
       exact this
     | stmt i st =>
       simp only [clean, Bool.and_eq_true, Option.isNone_iff_eq_none] at hc
